@@ -217,13 +217,18 @@ def _check_type_requirements_for_field(
         return
 
     if field.type.has_field("atomic_type"):
-        field_min_size = (
-            int(field.location.size.type.integer.minimum_value)
-            * type_definition.addressable_unit
+
+        def size_bound_in_bits(bound):
+            # The size of a field may have no known lower or upper bound.
+            if bound in ("infinity", "-infinity"):
+                return float(bound.replace("infinity", "inf"))
+            return int(bound) * type_definition.addressable_unit
+
+        field_min_size = size_bound_in_bits(
+            field.location.size.type.integer.minimum_value
         )
-        field_max_size = (
-            int(field.location.size.type.integer.maximum_value)
-            * type_definition.addressable_unit
+        field_max_size = size_bound_in_bits(
+            field.location.size.type.integer.maximum_value
         )
         field_is_atomic = True
     else:
